@@ -1081,7 +1081,7 @@ func execEmbed(ops []string, mon *Mon) []string {
 		case f[0] == "sem" && len(f) >= 2 && len(f)%2 == 0 && st.db != nil:
 			line = execSem(st, f, o, alpha, floor, mon)
 		case f[0] == "search" && len(f) == 3 && st.db != nil:
-			line = safely(func() string { return execSearch(st, UnHx(f[1]), f[2] == "1", o, alpha, mon) })
+			line = safely(func() string { return embExecSearch(st, UnHx(f[1]), f[2] == "1", o, alpha, mon) })
 			if line != "ok" {
 				mon.Hit("C19", "search-panic", map[string]interface{}{"op": o, "panic": line})
 			}
@@ -1230,9 +1230,9 @@ func f_ofTok(t string) float64 {
 	return math.Float64frombits(v)
 }
 
-// execSearch: paired SearchUniversal runs. `never` never had an index; `db` has the index attached or
+// embExecSearch: paired SearchUniversal runs. `never` never had an index; `db` has the index attached or
 // detached as the case says. Limit exceeds the database size so both runs rank the same candidates.
-func execSearch(st *embState, q string, nlp bool, op string, alpha float64, mon *Mon) string {
+func embExecSearch(st *embState, q string, nlp bool, op string, alpha float64, mon *Mon) string {
 	opts := database.SearchOptions{Limit: len(st.db.Commands) + 5, UseNLP: nlp, AllPlatforms: true}
 	base := st.never.SearchUniversal(q, opts)
 	got := st.db.SearchUniversal(q, opts)
